@@ -2,6 +2,7 @@ package keeper
 
 import (
 	"fmt"
+	"github.com/ethereum/go-ethereum/common"
 	"math/big"
 
 	sdkmath "cosmossdk.io/math"
@@ -245,4 +246,48 @@ func VerifC01RebondNoDoubleVote() {
 		rt.Assert(cnt <= 1, "an oracle is never recorded twice on one attestation, not even after leaving and bonding again")
 	}
 	rt.Assert(e.k.GetLastObservedEventNonce(e.ctx) == L, "one oracle out of three equal ones cannot observe an event by voting twice")
+}
+
+// VerifC01ExecuteOnceReentrant: a parked inbound bridge call is executed (deferred execution of
+// an observed claim); the contract it calls re-enters and asks for the execution of the same
+// event nonce again (as a contract can through the crosschain precompile). The nested request
+// finds nothing to execute, and the event's effects are applied exactly once.
+func VerifC01ExecuteOnceReentrant() {
+	e := verifBridgeState()
+	e.k.SetLastObservedBlockHeight(e.ctx, 1000, 90)
+	module := models.ModuleAddress(verifModule)
+	to := common.HexToAddress(verifTargetContract)
+	e.evm.Contracts = append(e.evm.Contracts, to)
+	x := verifAmt("deposit", 64)
+	rt.Assume(x.IsPositive())
+	preTo := verifAmt("balance.to", 64)
+	e.bank.SetBalance(to.Bytes(), verifBase, preTo)
+	e.bank.SetBalance(module, e.bridgeDenom, preTo) // escrow == base supply
+	nonce := uint64(7)
+	claim := &types.MsgBridgeCallClaim{ChainName: verifModule, BridgerAddress: verifOracleIdent(0).bridger.String(), EventNonce: nonce, BlockHeight: 900,
+		Sender: verifAddrB, Refund: verifTargetContract, To: verifTargetContract, TokenContracts: []string{verifTokenA}, Amounts: []sdkmath.Int{x},
+		Data: "aabb", Value: sdkmath.ZeroInt(), Memo: "", TxOrigin: verifAddrB}
+	e.k.SavePendingExecuteClaim(e.ctx, claim)
+	reentered, nestedRan := 0, false
+	reenter := rt.Bool("calleeReenters")
+	e.evm.BeforeCall = func(ctx sdk.Context) {
+		if reenter && reentered == 0 {
+			reentered++
+			nestedRan = e.k.ExecuteClaim(ctx, nonce) == nil
+		}
+	}
+	tokBefore := sdkmath.NewIntFromBigInt(e.tok.BalanceOf(verifErc20Token, to))
+	rt.Cover("state-built")
+	err := e.k.ExecuteClaim(e.ctx, nonce)
+	if err != nil {
+		rt.Cover("failed")
+		return
+	}
+	rt.Cover("executed")
+	rt.Assert(!nestedRan, "a nested request to execute the same event finds nothing to execute")
+	got := sdkmath.NewIntFromBigInt(e.tok.BalanceOf(verifErc20Token, to)).Sub(tokBefore)
+	rt.Assert(got.Equal(x), "the event's deposit is credited exactly once")
+	_, still := e.k.GetPendingExecuteClaim(e.ctx, nonce)
+	rt.Assert(!still, "the executed claim is consumed")
+	rt.Assert(e.k.ExecuteClaim(e.ctx, nonce) != nil, "an executed claim cannot be executed again")
 }
